@@ -247,6 +247,47 @@ fn follower_case(beh: &Value, c: &C) -> Bad {
     None
 }
 
+
+/// C07 on a profile the exact family did not expect to exist: velocity and position must not jump (more than the limits allow between two
+/// neighbouring instants) anywhere on a fine grid over the move and at the piece boundaries +-1 ns.
+fn accepted_profile_is_a_trajectory(p: &MotionProfile, vlim: f64, amax: f64) -> Bad {
+    let t3 = first_t_with(p, 4);
+    if t3 <= 0 || t3 == i64::MAX {
+        return None;
+    }
+    let mut ts: Vec<i64> = (0..=400).map(|k| (t3 as i128 * k as i128 / 400) as i64).collect();
+    for b in [first_t_with(p, 2), first_t_with(p, 3), t3] {
+        for d in [-1i64, 0, 1] {
+            ts.push(b.saturating_add(d));
+        }
+    }
+    ts.sort();
+    ts.dedup();
+    let mut prev: Option<(i64, f64, f64)> = None;
+    for t in ts {
+        if t < 0 || t >= t3 {
+            continue;
+        }
+        let (v, x) = match (p.get_velocity(Time(t)), p.get_position(Time(t))) {
+            (Some(v), Some(x)) => (v.value as f64, x.value as f64),
+            _ => continue,
+        };
+        if let Some((pt, pv, px)) = prev {
+            let dt = (t - pt) as f64 / 1e9;
+            let vtol = 1e-3 * (vlim + amax * dt) + amax * dt * 1.01;
+            let xtol = 1e-3 * (vlim * dt + x.abs().max(px.abs()) * 1e-3) + (vlim + amax * dt) * dt * 1.01 + f32::EPSILON as f64 * 64.0 * x.abs().max(px.abs());
+            if (v - pv).abs() > vtol {
+                return Some(("trapezoid".into(), format!("velocity of an accepted profile jumps between t = {pt} ns and t = {t} ns"), json!({"at_most": vtol}), json!({"from": pv, "to": v})));
+            }
+            if (x - px).abs() > xtol {
+                return Some(("trapezoid".into(), format!("position of an accepted profile jumps between t = {pt} ns and t = {t} ns"), json!({"at_most": xtol}), json!({"from": px, "to": x})));
+            }
+        }
+        prev = Some((t, v, x));
+    }
+    None
+}
+
 fn replay_case(case: &Value, c: &C, mode: &str, flip_limits: bool) -> Bad {
     let mv = &case["mv"];
     let end_state = State::new_raw(c.pos(&mv["xe"]) as f32, c.vel(&mv["ve"]) as f32, c.acc(&mv["ae"]) as f32);
@@ -254,8 +295,22 @@ fn replay_case(case: &Value, c: &C, mode: &str, flip_limits: bool) -> Bad {
     let p = mk_profile(mv, c, false, flip_limits);
     match (&p, exp_panic) {
         (Err(_), true) => return None,
-        (Err(m), false) => return Some(("constructor".into(), "the constructor panicked on a feasible move".into(), json!("profile"), json!(m))),
-        (Ok(_), true) => return Some(("constructor".into(), "the constructor accepted an infeasible move (a phase would have negative duration)".into(), json!("panic"), json!("profile"))),
+        (Err(m), false) => {
+            // C06 lets the constructor refuse ("either panics or yields 0 <= t1 <= t2 <= t3"); C07 demands acceptance of a move whose
+            // displacement COMFORTABLY exceeds its acceleration plus deceleration distance: here, at least one whole tick of cruising
+            if mode != "c06" && mode != "adapter" && i(mv, "d2") >= 1 {
+                return Some(("constructor".into(), "the constructor refused a comfortably long move".into(), json!("profile"), json!(m)));
+            }
+            return None;
+        }
+        (Ok(prof), true) => {
+            // Refusing an infeasible request is C06's clause (0 <= t1 <= t2 <= t3 or panic).  C07 speaks of every ACCEPTED profile: if this one
+            // was accepted it must still be a continuous trajectory within the limits, which is checked on the real object directly.
+            if mode != "c07" {
+                return Some(("constructor".into(), "the constructor accepted an infeasible move (a phase would have negative duration)".into(), json!("panic"), json!("profile")));
+            }
+            return accepted_profile_is_a_trajectory(prof, c.vel(&mv["vm"]).abs().max(c.vel(&mv["v0"]).abs()).max(c.vel(&mv["ve"]).abs()), c.acc(&mv["am"]).abs());
+        }
         _ => {}
     }
     let p = p.unwrap();
